@@ -8,3 +8,13 @@ pub proof fn lemma_c11_witness()
     ensures reader_inv(RState { buf: seq![0x16u8, 0x03u8, 0x01u8, 0x01u8, 0x00u8, 0x01u8], done: false }),
 {
 }
+
+pub open spec fn fresh() -> RState { RState { buf: Seq::<u8>::empty(), done: false } }
+/// C01 (instance not poisoned): whatever a reader that is not done has been fed, once it reports an
+/// error it is back in the fresh state, so the next record is analysed exactly as by a fresh reader
+pub proof fn lemma_c01_reader_recovers(s: RState, data: Seq<u8>)
+    requires !s.done,
+    ensures
+        (reader_step(s, data).1 is ParseErr || reader_step(s, data).1 is TooLarge) ==> reader_step(s, data).0 == fresh(),
+{
+}
